@@ -551,4 +551,4 @@ def unit():
                 parts=client_table.parts() + dispatch_parts() + guard_parts() + call_parts(), rules=RULES,
                 fx_fns=client_table.FX_CALLS + [r'\.complete\(', r'self\.pump_read__closure\(', r'\.pump_read\(', r'\.pump_write\(', r'\.poll_write_request\(', r'\.shut_down_with_terminal_error\(', r'self\.run\(', r'\.poll_expired\((?=cx, \|\|)'],
                 fx_prims=[r'response_completion\.send\(', r'self\.response\.close\(', r'self\.cancellation\.cancel\(', r'response_guard\.response\(', r'self\.to_dispatch\.send\('], fx_type='Fx<Res>',
-                accessor_guards=[(SRC, IMPL, n, rx) for n, rx in ACCESSOR_GUARDS])
+                accessor_guards=[(SRC, IMPL, n, rx) for n, rx in ACCESSOR_GUARDS], lemmas=['client_history.rs'])
